@@ -1286,7 +1286,11 @@ impl<'a> ApplicableAttr<'a> {
                     quote!(#obj #field_path)
                 }
                 (None, Some(action)) => quote_action(action, Some(&field_path(or())), ctx),
-                _ => unreachable!("12"),
+                // an instruction with neither a field name nor an expression changes nothing: map the member by its own name
+                (None, None) => {
+                    let field_path = field_path(or());
+                    quote!(#obj #field_path)
+                },
             }
         };
         match self {
